@@ -14,7 +14,8 @@ use std::process::{Command, Stdio};
 use std::sync::mpsc;
 use std::time::Duration;
 
-const DOMAINS: [(f64, f64); 4] = [(-1.0, 2.0), (0.0, 1.0), (-5.0, -3.0), (1e-3, 1e3)];
+// the last three: bounds for which a + (b - a) != b in double arithmetic
+const DOMAINS: [(f64, f64); 7] = [(-1.0, 2.0), (0.0, 1.0), (-5.0, -3.0), (1e-3, 1e3), (0.2, 0.9), (-0.7, 0.1), (-7.3, 2.9)];
 const OPS: [&str; 4] = ["Saturation", "Toroidal", "Mirror", "CompleteOneTailedNormalCorrection"];
 
 fn make_boundary(op: usize) -> Box<dyn Component<RealP>> {
@@ -223,6 +224,25 @@ fn explore_boundary_case(c: &BCase, thorough: bool, seed: u64, idx: usize) -> Va
         });
         runs = st.runs;
         trunc = st.truncated;
+        // words that steer the normal sampler (ziggurat) into its tail: a first draw of about 6.8 standard deviations
+        // (more than two domain widths) for the tapes [tail entry, x, y]; all tapes of length 3 over this menu
+        if c.xs.len() == 1 {
+            const TAIL_MENU: [u64; 5] = [0x0000_0000_0000_0000, 0xFFFF_FFFF_FFFF_F000, 0x0000_A7C5_AC47_1B48, 0x0041_8937_4BC6_A7EF, 0x4000_0000_02A5_14B9];
+            let mut cfg = Cfg::prefix(&TAIL_MENU, 3, seed ^ idx as u64);
+            cfg.draw_cap = 400;
+            let st = tape::explore(&cfg, &body, &mut |prefix, out, _| {
+                if let Some((s, d)) = check_boundary(c, out) {
+                    if !viols.iter().any(|v| v.0 == s) {
+                        // tapes of this second exploration are marked by a leading 1000
+                        let mut t = vec![1000u32];
+                        t.extend_from_slice(prefix);
+                        viols.push((s, d, t));
+                    }
+                }
+            });
+            runs += st.runs;
+            trunc += st.truncated;
+        }
     }
     json!({"runs": runs, "truncated": trunc, "outcomes": outcomes, "violations": viols.iter().map(|v| json!({"sig": v.0, "detail": v.1, "tape": v.2})).collect::<Vec<_>>()})
 }
